@@ -188,11 +188,11 @@ def judge_janssen(ctx, c):
             # mechanism classifier: did the solver stop at a stationary point (local extremum) of the balance function?
             key = "C10:janssen:balance:not-a-root"
             try:
-                fl, fr = F(float(z0[i]) * np.exp(-0.1))[0], F(float(z0[i]) * np.exp(0.1))[0]
-                fl3, fr3 = F(float(z0[i]) * np.exp(-0.3))[0], F(float(z0[i]) * np.exp(0.3))[0]
-                extremum = (r >= fl and r >= fr) or (r <= fl and r <= fr) or \
-                           ((fl - fl3) * (fr3 - fr) < 0 and abs(fr - fl) < 0.05 * abs(r))
-                if extremum:
+                # a local extremum of F within a factor e^(+-0.5) of the returned value? (11 log-spaced samples)
+                zz = float(z0[i]) * np.exp(np.linspace(-0.5, 0.5, 11))
+                ff = np.array([F(float(v))[0] for v in zz])
+                jmax, jmin = int(np.argmax(ff)), int(np.argmin(ff))
+                if 0 < jmax < 10 or 0 < jmin < 10:
                     key = "C10:janssen:balance:converged-at-stationary-point"
             except Exception:
                 pass
